@@ -235,7 +235,8 @@ impl Iterator for SplitWith {
         use KValue::{Bool, Str};
 
         let start = self.start;
-        if start < self.input.len() {
+        // As with `Split`, a match at the end of the input is followed by a final empty string
+        if start <= self.input.len() {
             let mut end = None;
             let mut grapheme_len = 0;
 
@@ -271,9 +272,14 @@ impl Iterator for SplitWith {
                 }
             }
 
+            let next_start = match end {
+                Some(end) => end + grapheme_len,
+                // No more matches, so the rest of the input is the last output
+                None => self.input.len() + 1,
+            };
             let end = end.unwrap_or(self.input.len());
             let output = Str(self.input.with_bounds(start..end).unwrap());
-            self.start = end + grapheme_len;
+            self.start = next_start;
 
             Some(Output::Value(output))
         } else {
